@@ -28,7 +28,8 @@ THOROUGH_EXTRA = ["timeout1", "timeout2", "del", "taskcrash", "crash_tmo", "mix3
 INVS = ["AtMostOnce", "CancelMeansNeverRun", "RightFuture", "SlotConservation", "BoundedParallelism", "BrokenTotal",
         "TimeoutNeverBreaks", "CleanHandshakeOnly", "NoTimeoutWhileHolding"]
 # behaviour of the code as it is now (flipped by fix: commits); D17 = CancelWakes
-CODE_SWITCHES = json.load(open(os.path.join(tlc.SPECS, "code_switches.json")))
+CODE_SWITCHES = {k: v for k, v in json.load(open(os.path.join(tlc.SPECS, "code_switches.json"))).items()
+                 if k in ("WakeAfterSpawn", "KeepRefs", "SafeFail", "CancelWakes")}
 
 
 def write_cfg(work, name, switches=None, invariants=INVS, spec="SpecF", symmetry=True, extra=""):
